@@ -471,6 +471,20 @@ def run(F, rep, tier):
             else:
                 rep.ok('R10.7', '%s::%s' % (base, m), 'next advances %s, override reads %s' % (sorted(w) or 'nothing', sorted(r)))
     rep.floor('R10.7', 'index/slice overrides', n107, 3)
+    # ---------------- R10.10
+    rep.rule('R10.10', 'only integers index: NNum::to_isize / to_usize (the conversions every index and slice bound goes through) answer for the '
+             'Int level only - no float or rational conversion inside them, so `xs[1.5]`, `xs[2.0]` stay index errors on reads and writes alike')
+    for cf in ('nnum::NNum::to_isize', 'nnum::NNum::to_usize'):
+        if not F.has_fn(cf):
+            rep.error('R10.10', cf + ' missing')
+            continue
+        cb_ = F.body(cf)
+        conv = [c for c in cb_.calls if re.search(r'to_(isize|usize|i64|u64|i32|u32)$', c.target)]
+        bad_ = [c for c in conv if not ('nint::NInt' in c.target or 'NInt' in str(c.callee.get('g')))]
+        if conv and not bad_:
+            rep.ok('R10.10', cf, 'only NInt is converted')
+        else:
+            rep.viol('R10.10', cf + '|non-integer-level', '%s converts a non-integer level (%s): a fractional float truncates to an index, so `xs[1.5]` reads and `x[1.5] = v` writes element 1 instead of raising' % (cf, [c.target[-50:] for c in bad_][:2] or 'no NInt conversion found'), (bad_ or conv or [None])[0].loc() if (bad_ or conv) else cb_.loc(0))
     # ---------------- R10.9
     rep.rule('R10.9', 'clamping is for slice bounds only: clamped_pythonic_index is called from the slice normalisers (pythonic_slice*) and nowhere '
              'else - an element access that clamps an out-of-range index returns some element instead of raising an index error')
